@@ -291,12 +291,15 @@ impl FromStr for HLCTimestamp {
             return Err(InvalidFormat);
         }
 
-        let duration = parts_as_duration(seconds, fractional);
-        if duration.as_secs() > TIMESTAMP_MAX {
-            return Err(InvalidFormat);
-        }
-
-        Ok(Self::new(duration, counter, node))
+        // The fields go back exactly where `Display` took them from, so that every
+        // timestamp survives being written as text, also one whose fractional part
+        // is not in its canonical range (which a `Duration` would carry over).
+        Ok(Self(
+            (seconds << 32)
+                | ((fractional as u64) << 24)
+                | ((counter as u64) << 8)
+                | node as u64,
+        ))
     }
 }
 
